@@ -115,6 +115,33 @@ func c01Gen(c *core.Ctx) func(yield func(c01Case) bool) {
 			}
 			return true
 		})
+		if !ok {
+			return
+		}
+		// pointer-typed holders ([*T], []*T) next to interface-typed ones, one substituted node: a
+		// wrapper does not fit a *T field, so such starts normally fail - if one succeeds, every
+		// holder must still see the one published object
+		allGraphs(3, []int{scen.ENone, scen.EName, scen.EPtr}, false, func(e [][]int) bool {
+			anyPtr := false
+			for i := range e {
+				for _, k := range e[i] {
+					anyPtr = anyPtr || k == scen.EPtr
+				}
+			}
+			if !anyPtr {
+				return true
+			}
+			for node := 0; node < 3; node++ {
+				for _, plan := range []int{scen.WrapEarly, scen.WrapAfter, scen.WrapEarlyAfterSame} {
+					wrap := []int{0, 0, 0}
+					wrap[node] = plan
+					if ok = yield(c01Case{scen.GraphProg{N: 3, Edges: e, Wrap: wrap, Family: "ptr-n3-onewrap"}, 0}); !ok {
+						return false
+					}
+				}
+			}
+			return true
+		})
 		if !ok || !c.Thorough() {
 			return
 		}
